@@ -512,7 +512,8 @@ func (c *ctl) awaitOrHang(gid int64, what string, cond func() bool) (hungStack s
 		}
 		if gid > 0 {
 			state, stack := goroutineState(gid)
-			if state != "" && blockedInCode(state, stack) {
+			// parked inside the pool, and nobody in the pool is able to run (whoever could wake it waits at a gate)
+			if all, _ := poolParked(); all && state != "" && blockedInCode(state, stack) {
 				parkedSamples++
 				if parkedSamples >= 3 {
 					return stack, nil
